@@ -15,6 +15,15 @@ PROP = dict(
         dict(name="binary", pkg="c01", run="^TestC01_Binary$", shards=FIELDS, checks=(4000, 60000)),
         dict(name="vector", pkg="c01", run="^TestC01_Vector$", shards=FIELDS, checks=(700, 10000)),
         dict(name="regress", pkg="c01", run="^TestC01_Regress$", rapid=False),
+        # exhaustive sweeps of the 31-bit fields: all q inputs of every unary op (+ Mul/Add/Sub by 16 constants)
+        dict(name="exh-koalabear", pkg="c01", run="^TestC01_Exhaustive_koalabear$", rapid=False, tiers=("thorough",),
+             seeds=(1, 16), timeout=(600, 3000), weight=10),
+        dict(name="exh-babybear", pkg="c01", run="^TestC01_Exhaustive_babybear$", rapid=False, tiers=("thorough",),
+             seeds=(1, 16), timeout=(600, 3000), weight=10),
+    ] + [
+        # white-box (overlay): the inversion fall-back inverseExp called directly
+        dict(name="wb-inverseexp." + f.replace("/", "_"), kind="overlay", pkg=FIELD_PKG[f], run="^TestVerifC01_", checks=(3000, 50000))
+        for f in FIELDS if has_func(FIELD_PKG[f], "func (z *Element) inverseExp(")
     ],
 )
 
